@@ -18,7 +18,7 @@ CFG = {
              obligation='bounded:C03.crc-definition',
              what='Point.CRC equals the documented definition, ignores Data/Tombstone/Origin and depends on time, type, key, text, value')],
  'C15': [dict(pkg='./client', test='TestVerifC15ExportImport', src='/verif/bounded/c15_export_import_test.go', dst='/repo/client/zz_verif_c15_test.go',
-             out='VERIF_C15_OUT', timeout='1500s', bad='mismatches', cases='mismatch_classes',
+             out='VERIF_C15_OUT', timeout='1500s', bad='mismatches', cases='mismatch_classes', netns=True,
              obligation='bounded:C15.export-import',
              what='export then import (with and without id preservation) reproduces shape, types, points and edge points; ids replaced consistently incl. nodeID references; marker on the top description only; deleted nodes absent; YAML round trip of every corpus string')],
  'C10': dict(pkg='./data', test='TestVerifC10Roundtrip', src='/verif/bounded/c10_roundtrip_test.go', dst='/repo/data/zz_verif_c10_test.go',
@@ -41,7 +41,15 @@ def run_leg(prop, tier, seed, c):
                    VERIF_TIER=tier, VERIF_SEED=str(seed))
         env[c['out']] = out
         cmd = 'ulimit -v 25000000; exec go test -p 1 -overlay %s -vet=off -timeout %s -count=1 -run %s %s' % (ov, c['timeout'], c['test'], c['pkg'])
-        p = subprocess.run(['bash', '-c', cmd], cwd='/repo', env=env, capture_output=True, text=True)
+        argv = ['bash', '-c', cmd]
+        if c.get('netns') and shutil.which('unshare') and shutil.which('ip'):
+            # the harness starts the repo's test server on fixed ports: give it a private network namespace so that
+            # concurrent runs (other checks, other users of the machine) cannot interfere; falls back to the host
+            # namespace where unshare is not permitted
+            probe = subprocess.run(['unshare', '-n', 'bash', '-c', 'ip link set lo up'], capture_output=True)
+            if probe.returncode == 0:
+                argv = ['unshare', '-n', 'bash', '-c', 'ip link set lo up; ' + cmd]
+        p = subprocess.run(argv, cwd='/repo', env=env, capture_output=True, text=True)
         log = (p.stdout + p.stderr)[-6000:]
         res = None
         if os.path.exists(out) and os.path.getsize(out) > 0:
